@@ -41,6 +41,11 @@ def units(tier, seed):
     for n in range(1, 5 if tier == "quick" else 6):
         for minimize in (False, True):
             us.append({"kind": "topk", "n": n, "minimize": minimize})
+    # fitness values at the ends of the float range: infinite, negative and huge aggregates are ordinary fitness values
+    for n in (2, 3):
+        for minimize in (False, True):
+            us.append({"kind": "topk", "n": n, "minimize": minimize, "alpha": "infinite"})
+            us.append({"kind": "topk", "n": n, "minimize": minimize, "alpha": "signed-huge"})
     for n in (2, 3):
         us.append({"kind": "topk-multi", "n": n})
     for e, nv in ((1, 0), (2, 1), (1, 2), (3, 0)):
@@ -77,7 +82,8 @@ def run_topk(unit) -> UnitResult:
     r = UnitResult()
     n, minimize = unit["n"], unit["minimize"]
     rep = StubRepresentation(2)
-    for fits in itertools.product([0, 1, 2], repeat=n):
+    alpha = {"infinite": [float("-inf"), 0, float("inf")], "signed-huge": [-1e300, -1, 1e300]}.get(unit.get("alpha"), [0, 1, 2])
+    for fits in itertools.product(alpha, repeat=n):
         for dup in (False, True):
             if dup and n < 2:
                 continue
